@@ -1,15 +1,110 @@
--- GENERATED from /repo by checks/ on every run. Do not edit.
+-- GENERATED from /tmp/wt_c12s by checks/ on every run. Do not edit.
 import TbbVerif.Core.Cint
+import TbbVerif.Model.C12F32
 namespace TbbVerif.Generated.C12
 open TbbVerif.Cint
+set_option linter.unusedVariables false
 def defaultBucketCount : Nat := 8
 def defaultMaxLoadFactorMilli : Nat := 4000
 def initialBucketCount : Nat := 8
 def initialMaxLoadFactorMilli : Nat := 4000
+def initialMlfBits : Nat := 1082130432
 def pointersPerEmbeddedTable : Nat := 63
 def roundUp5 : Nat := 8
 def roundUp8 : Nat := 8
 def skipMaxLevel : Nat := 32
 def sokeyBits : Nat := 64
+open TbbVerif.C12
+def roundUp (x : Nat) : Nat := (((wrapU 64 (1 : Int)) <<< (wrapU 64 ((clog2 (wrapU 64 ((((((if (decide (x = (wrapU 64 (0 : Int)))) then (wrapU 64 (1 : Int)) else x) * (wrapU 64 (2 : Int))) % 2^64) : Nat) : Int) - (((wrapU 64 (1 : Int)) : Nat) : Int))) : Nat) : Int))) % 2^64)
+def ctorBc (x : Nat) : Nat := (roundUp x)
+def rehashCond (cur n : Nat) : Bool := (decide (cur < n))
+def rehashNew (cur n : Nat) : Nat := (roundUp n)
+def reserveInit (cur n : Nat) (mlf : F32) : Nat := cur
+def reserveCond (cur nec n : Nat) (mlf : F32) : Bool := (F32.lt (F32.mul (F32.ofNat nec) mlf) (F32.ofNat n))
+def reserveStep (cur nec n : Nat) (mlf : F32) : Nat := ((nec <<< ((1 : Int)).toNat) % 2^64)
+def reserveDesired (cur nec n : Nat) (mlf : F32) : Nat := nec
+def reserveBreak (cur nec n : Nat) (mlf : F32) : Bool := (decide (cur ≥ nec))
+def adjustCond (total cur : Nat) (mlf : F32) : Bool := (F32.lt mlf (F32.div (F32.ofNat total) (F32.ofNat cur)))
+def adjustNew (total cur : Nat) (mlf : F32) : Nat := (((wrapU 64 (2 : Int)) * cur) % 2^64)
+def mlfReject (mlf : F32) : Bool := ((!(F32.eq mlf mlf)) || (F32.lt mlf (F32.ofNat ((0 : Int)).toNat)))
+def bucketCountWriters : List String := ["init: round_up_to_power_of_two(bucket_count)",
+  "init: other.my_bucket_count.load(std::memory_order_relaxed)",
+  "init: other.my_bucket_count.load(std::memory_order_relaxed)",
+  "init: other.my_bucket_count.load(std::memory_order_relaxed)",
+  "init: other.my_bucket_count.load(std::memory_order_relaxed)",
+  "store: other.my_bucket_count.load(std::memory_order_relaxed), std::memory_order_relaxed",
+  "store: other.my_bucket_count.load(std::memory_order_relaxed), std::memory_order_relaxed",
+  "compare_exchange_strong: current_bucket_count, round_up_to_power_of_two(bucket_count)",
+  "compare_exchange_strong: current_bucket_count, necessary_bucket_count",
+  "compare_exchange_strong: current_size, 2u * current_size",
+  "store: initial_bucket_count, std::memory_order_relaxed",
+  "store: other.my_bucket_count.load(std::memory_order_relaxed), std::memory_order_relaxed",
+  "store: bucket_count, std::memory_order_relaxed"]
+def insertDummyNodeSkeleton : List String := ["(parent_dummy_node, order_key)",
+  "node_ptr prev_node = parent_dummy_node",
+  "node_ptr dummy_node = create_dummy_node(order_key)",
+  "node_ptr next_node",
+  "do {",
+  "next_node = prev_node->next()",
+  "while (next_node != nullptr && next_node->order_key() < order_key) {",
+  "prev_node = next_node",
+  "next_node = next_node->next()",
+  "}",
+  "if (next_node != nullptr && next_node->order_key() == order_key) {",
+  "destroy_node(dummy_node)",
+  "return next_node",
+  "}",
+  "if (try_insert(prev_node, dummy_node, next_node)) break",
+  "prev_node = &my_head",
+  "}",
+  "while (true)",
+  "return dummy_node"]
+def tryInsertSkeleton : List String := ["(prev_node, new_node, current_next_node)",
+  "new_node->set_next(current_next_node)",
+  "return prev_node->try_set_next(current_next_node, new_node)"]
+def searchAfterSkeleton : List String := ["(prev, order_key, key)",
+  "node_ptr curr = prev->next()",
+  "while (curr != nullptr && (curr->order_key() < order_key || (curr->order_key() == order_key && !my_hash_compare(traits_type::get_key(static_cast<value_node_ptr>(curr)->value()), key)))) {",
+  "prev = curr",
+  "curr = curr->next()",
+  "}",
+  "if (curr != nullptr && curr->order_key() == order_key && !allow_multimapping) {",
+  "return {",
+  "static_cast<value_node_ptr>(curr), true",
+  "}",
+  "}",
+  "return {",
+  "static_cast<value_node_ptr>(curr), false",
+  "}"]
+def initBucketSkeleton : List String := ["(bucket)",
+  "if (bucket == 0) {",
+  "node_ptr disabled = nullptr",
+  "my_segments[0].compare_exchange_strong(disabled, &my_head)",
+  "return",
+  "}",
+  "size_type parent_bucket = get_parent(bucket)",
+  "while (my_segments[parent_bucket].load(std::memory_order_acquire) == nullptr) {",
+  "init_bucket(parent_bucket)",
+  "}",
+  "node_ptr parent = my_segments[parent_bucket].load(std::memory_order_acquire)",
+  "node_ptr dummy_node = insert_dummy_node(parent, split_order_key_dummy(bucket))",
+  "my_segments[bucket].store(dummy_node, std::memory_order_release)"]
+def getBucketSkeleton : List String := ["(bucket_index)",
+  "if (my_segments[bucket_index].load(std::memory_order_acquire) == nullptr) {",
+  "init_bucket(bucket_index)",
+  "}",
+  "return my_segments[bucket_index].load(std::memory_order_acquire)"]
+def prepareBucketSkeleton : List String := ["(hash_key)",
+  "size_type bucket = hash_key % my_bucket_count.load(std::memory_order_acquire)",
+  "return get_bucket(bucket)"]
+def internalInsertRetrySkeleton : List String := ["while (!try_insert(prev, new_node, curr)) {",
+  "search_result = search_after(prev, order_key, key)",
+  "if (search_result.second) {",
+  "return internal_insert_return_type {",
+  "new_node, search_result.first, false",
+  "}",
+  "}",
+  "curr = search_result.first",
+  "}"]
 
 end TbbVerif.Generated.C12
